@@ -380,7 +380,8 @@ PROPS = {
                   lambda prog, tier: tokens.run_sections(prog, "mpq_ILLwrite_mps", {"ENDATA"}, print_funcs={"mpq_ILLprint_report": 1}, token_ok=lambda t: t.isupper() and len(t) >= 2),
                   lambda prog, tier: idxclass.run(prog, scope_units=("mps_mpq.c", "rawlp_mpq.c")),
                   lambda prog, tier: sentinel.run(prog), lambda prog, tier: appendinit.run(prog), lambda prog, tier: rescan.run(prog), lambda prog, tier: defaults.run(prog),
-                  lambda prog, tier: fullscan.run(prog, ["mpq_ILLwrite_mps"], ("mps_mpq.c",), floor=6)],
+                  lambda prog, tier: fullscan.run(prog, ["mpq_ILLwrite_mps"], ("mps_mpq.c",), floor=6),
+                  lambda prog, tier: fullscan.run_rowfilter(prog)],
         "technique": "lossy-conversion sink census over writer/reader closures; table agreement (section names, bound mnemonics, row-type "
                      "letters, markers) between the MPS writer's format literals and the reader's tables / switch cases / strcmp operands; "
                      "must-pass analysis of section emitters before ENDATA; index-space typing",
